@@ -285,16 +285,18 @@ class Polygon2D(Base2DIn2D):
         vertices = [Point2D(outer_node.x, outer_node.y)]
         node = outer_node.next
         node_counter, orig_start_i = 0, 0
+        has_start = outer_node.i == 0  # a colinear first vertex is filtered out
         while node is not outer_node:  # bridged nodes are duplicated with the same i
             vertices.append(Point2D(node.x, node.y))
             node_counter += 1
             if node.i == 0:
-                orig_start_i = node_counter
+                orig_start_i, has_start = node_counter, True
             node = node.next
 
         # ensure that the starting vertex is the same as the input boundary
         vertices = vertices[orig_start_i:] + vertices[:orig_start_i]
-        vertices[0] = boundary[0]  # this avoids issues of floating point tolerance
+        if has_start:
+            vertices[0] = boundary[0]  # this avoids issues of floating point tolerance
 
         # return the polygon with some properties set based on what we know
         _new_poly = cls(vertices)
